@@ -60,7 +60,7 @@ def run(ctx, rep):
                 if lits and lits[0].startswith("error:"):
                     fn = cr.fn_at(site["loc"]["file"], site["loc"]["line"])
                     n_err += 1
-                    if fn == ri.name:
+                    if lib.roots_of(fn) == {ri.name} if cr is lib else fn == ri.name:
                         r.ok("template error:@%s#%d" % (fn, n_err), "inside read_input", "%s:%d" % (site["loc"]["file"], site["loc"]["line"]),
                              nontrivial=False)
                     else:
@@ -73,6 +73,8 @@ def run(ctx, rep):
         for name, b in lib.bodies.items():
             if not name.startswith("Master::<S>::") or name.endswith("::new"):
                 continue
+            if lib.roots_of(name) and lib.roots_of(name) != {name}:
+                continue      # a function new to the rules: judged where it is inlined
             uses = 0
             for bb, idx, place, rv, _ in b.assignments():
                 pl = rv.get("place") if rv["k"] in ("ref", "discr") else (rv.get("op", {}).get("place") if rv["k"] in ("use", "cast") else None)
